@@ -124,7 +124,47 @@ def c17_3(ctx):
         ctx.check(s == iv(1, ("s", -1)).complement(), "recovery-range:%s" % subj, ctx.where(f), "pair_for_message_hash rejects %s in %s, must be exactly outside [1, n-1]" % (subj, s.fmt("n")), sample={"subject": subj, "rejected": s.fmt("n")})
     _refcheck(ctx, "MessageSigner.pair_for_message_hash", "ms_pair_for_message_hash", "recovery-arithmetic")
     _refcheck(ctx, "MessageSigner.pair_matches_key", "ms_pair_matches_key", "key-comparison")
+    _flagged_encoding_only(ctx)
     _refcheck(ctx, "Generator.possible_public_pairs_for_signature", "gen_possible_public_pairs", "recovery", rel="pycoin/ecdsa/Generator.py", ints=lambda t: t in ("r", "s", "value", "y_parity", "inv_r", "s_over_r") or t.startswith(("signature[", "self.inverse(")))
+
+
+def _flagged_encoding_only(ctx):
+    """an address target is compared with the hash of the recovered key in ONE encoding, the one the signature's
+    compression flag names (the other encoding is another address, not the signer's)"""
+    f = ctx.func(MSG, "MessageSigner.pair_matches_key")
+    params = f.params()
+    flag = params[3] if len(params) > 3 else None
+    if flag is None:
+        raise Undecided("pair_matches_key no longer takes (key, pair, is_compressed)")
+    w = sym.walk(ctx, f)
+    calls = [c for c in ast.walk(f.node) if isinstance(c, ast.Call) and norm(c.func).endswith("public_pair_to_hash160_sec")]
+    if not calls:
+        raise Undecided("pair_matches_key does not hash the recovered pair with public_pair_to_hash160_sec; this rule does not read how the address is compared")
+    bound = {}       # names bound by a comprehension or a for loop of the function
+    for n in ast.walk(f.node):
+        if isinstance(n, ast.comprehension) or isinstance(n, ast.For):
+            for x in ast.walk(n.target):
+                if isinstance(x, ast.Name):
+                    bound[x.id] = n.iter
+    sdefs = df.single_defs(f.node)
+    for c in calls:
+        kw = [k.value for k in c.keywords if k.arg == "compressed"]
+        a = kw[0] if kw else (c.args[1] if len(c.args) > 1 else None)
+        if a is None:
+            ctx.bad("flagged-encoding-only", ctx.where(f, c), "pair_matches_key hashes the recovered key in the default encoding, whatever the signature's compression flag says")
+            continue
+        while isinstance(a, ast.Name) and a.id in sdefs and a.id not in bound:
+            a = sdefs[a.id]
+        t = norm(a)
+        if t in (flag, "bool(%s)" % flag, "not not %s" % flag):
+            ctx.ok("flagged-encoding-only", sample={"compressed": t})
+        elif isinstance(a, ast.Name) and a.id in bound:
+            ctx.bad("flagged-encoding-only", ctx.where(f, c), "pair_matches_key hashes the recovered key with compressed=`%s`, which ranges over `%s`: a signature also verifies for the address of the OTHER encoding of the key, "
+                    "which is not the signer's address" % (t, norm(bound[a.id])[:60]), sample={"compressed": t, "ranges_over": norm(bound[a.id])[:80]})
+        elif isinstance(a, ast.Constant):
+            ctx.bad("flagged-encoding-only", ctx.where(f, c), "pair_matches_key hashes the recovered key with the fixed encoding compressed=%s, whatever the signature's compression flag says" % t)
+        else:
+            ctx.undecided("flagged-encoding-only", ctx.where(f, c), "pair_matches_key hashes the recovered key with compressed=`%s`; this rule only reads the compression flag itself" % t[:60])
 
 
 # ------------------------------------------------------------------ C17.4
